@@ -420,7 +420,7 @@ def expand_at(g: C.CFG, nid: int, expr, depth: int = 5, keep=()):
     return at(nid, expr, depth)
 
 
-def flat_view(func: Func) -> Func:
+def flat_view(func: Func, scope=None) -> Func:
     """The function with its own parameterless nested generator helpers spliced in where they are run by a bare
     ``yield from helper()`` statement - `def move(): ...; yield from move()` and the same messages written in line are one
     and the same plan.  Only for looking at the order of yields; names are not made unique."""
@@ -428,7 +428,9 @@ def flat_view(func: Func) -> Func:
     import dataclasses
 
     node = copy.deepcopy(func.node)
-    nested = {s.name: s for s in node.body if isinstance(s, ast.FunctionDef) and not s.decorator_list
+    # helpers may also be the parameterless nested generators of an enclosing function (``scope``: siblings of ``func``)
+    pool = list(node.body) + ([s for s in scope.body if isinstance(s, ast.FunctionDef) and s.name != func.node.name] if scope is not None else [])
+    nested = {s.name: s for s in pool if isinstance(s, ast.FunctionDef) and not s.decorator_list
               and not (s.args.args or s.args.vararg or s.args.kwarg or s.args.kwonlyargs or s.args.posonlyargs)
               and not any(isinstance(r, ast.Return) and r.value is not None for r in A.walk_local(s) if r is not s)}
 
